@@ -41,7 +41,7 @@ RULE = (
     "mode, dictionary); non-trivial = the dictionary selects an overload, a pre-set/default option or a template."
 )
 ASSUMPTIONS = ["graphs are built from importable module-level functions in explicit dataset(f) form; the decorator form is the recorded finding pickle-decorator-form-dataset"]
-FLOORS = {"warm_memo_roundtrips": (6, 18), "warm_memo_children": (6, 18), "wired_together_checks": (12, 12), "roundtrips": (108, 108), "originals_compared_with_pristine_interpreter": (108, 108), "outcomes_compared": (4500, 4500), "child_interpreters": (30, 90), "post_load_registrations": (36, 36),
+FLOORS = {"warm_memo_roundtrips": (6, 18), "warm_memo_children": (6, 18), "wired_together_checks": (12, 12), "roundtrips": (120, 120), "originals_compared_with_pristine_interpreter": (120, 120), "outcomes_compared": (5000, 5000), "child_interpreters": (30, 90), "post_load_registrations": (36, 36), "post_dump_registrations_on_the_original": (36, 36),
           "unpickled_register_schedules": (150, 1500)}
 SHARDS_QUICK = 2
 SHARDS_THOROUGH = 4
@@ -208,6 +208,17 @@ def post_load_usable(ctx, name, g2):
         return
     if dict(g.overloads.lookup) != before:
         ctx.violation("copy-shares-state", f"{name}: registering on the unpickled copy changed the original's overload table", {"graph": name})
+        return
+    # ... and having been pickled leaves the ORIGINAL as usable as it was
+    try:
+        g.register("post-dump-on-original", Value(("registered-on-the-original",)))
+        v3 = observe(g.evaluate, U.set_path({"C": 1}, dkey, "post-dump-on-original"))
+    except Exception as e:  # noqa: BLE001
+        ctx.violation("original-not-usable", f"{name}: after it was pickled, registering on the ORIGINAL raised {type(e).__name__}: {e}", {"graph": name})
+        return
+    ctx.count("post_dump_registrations_on_the_original")
+    if v3[0] != "ok" or "registered-on-the-original" not in repr(v3):
+        ctx.violation("original-not-usable", f"{name}: after it was pickled, a registration on the ORIGINAL evaluates to {short(v3)}", {"graph": name})
 
 
 def unpickled_register_schedules(ctx, proto, n_dfs, n_rand):
